@@ -35,6 +35,8 @@ def plan(tier, seed):
         for pbs in (2, 4):
             cfgs.append(dict(kind="tr", cir=8, cbs=cbs, pir=16, pbs=pbs, N=n, gaps=["S", 1, 2, 8], sizes=[1, 2, 4], order=0))
     cfgs.append(dict(kind="tr", cir=8, cbs=2, pir=16, pbs=4, N=n - 1, gaps=["S", "N", 1, 2, 8], sizes=[1, 2, 4], order=1))
+    cfgs.append(dict(kind="tr", cir=8, cbs=2, pir=16, pbs=4, N=n, gaps=["S", 1, 2, 8], sizes=[1, 2, 4], order=0, premark=1))
+    cfgs.append(dict(kind="tr", cir=8, cbs=3, pir=None, pbs=None, N=n, gaps=["S", 1, 2, 8], sizes=[1, 2, 4], order=0, premark=1))
     # a peak bucket size without a peak rate: no PIR is given, so shaping is against (CIR, CBS)
     cfgs.append(dict(kind="tr", cir=8, cbs=2, pir=None, pbs=4, N=n, gaps=["S", 1, 2, 8], sizes=[1, 2, 4], order=0))
     cfgs.append(dict(kind="tr", cir=8, cbs=3, pir=None, pbs=2, N=n, gaps=["S", 1, 2, 8], sizes=[1, 2, 4], order=0))
@@ -61,6 +63,8 @@ def execute(ch, cfg):
 
     class Front:
         def put(self, pkt):
+            if cfg.get("premark"):
+                pkt.color = "red"       # marked by an upstream marker: this shaper decides the colour anew
             holder["e"].put(pkt)
 
     def mk():
